@@ -98,6 +98,12 @@ func (c *ctx) callItem(e ast.Expr) string {
 							return ".path"
 						}
 					}
+					// the same value written without the local: hasher.ensureRelative(dest)
+					if er := callTo(conv.Args[0], c.recv, "ensureRelative"); er != nil && len(er.Args) == 1 {
+						if id, ok := er.Args[0].(*ast.Ident); ok && c.roles[id.Name] == "dest" {
+							return ".target"
+						}
+					}
 				}
 			}
 		}
@@ -159,6 +165,66 @@ func (c *ctx) linear(stmts []ast.Stmt, onIf func(*ast.IfStmt, []string) bool) []
 		xlib.Unreadable("unrecognised statement touching the hash at %s:%d: %s", f.Path, f.Line(s), f.Src(s))
 	}
 	return items
+}
+
+// condExpr translates the managed-symlink condition into the model's CondE.
+// Atoms: rel != dest / rel == dest (rel being ensureRelative(dest), by name or inline), filepath.IsAbs(dest|path).
+func condExpr(c *ctx, e ast.Expr) string {
+	isRel := func(x ast.Expr) bool {
+		if id, ok := x.(*ast.Ident); ok {
+			return c.roles[id.Name] == "rel"
+		}
+		if er := callTo(x, c.recv, "ensureRelative"); er != nil && len(er.Args) == 1 {
+			if id, ok := er.Args[0].(*ast.Ident); ok {
+				return c.roles[id.Name] == "dest"
+			}
+		}
+		return false
+	}
+	isRole := func(x ast.Expr, role string) bool {
+		id, ok := x.(*ast.Ident)
+		return ok && c.roles[id.Name] == role
+	}
+	switch x := e.(type) {
+	case *ast.ParenExpr:
+		return condExpr(c, x.X)
+	case *ast.UnaryExpr:
+		if x.Op == token.NOT {
+			return "(.not " + condExpr(c, x.X) + ")"
+		}
+	case *ast.BinaryExpr:
+		switch x.Op {
+		case token.LAND:
+			return "(.and " + condExpr(c, x.X) + " " + condExpr(c, x.Y) + ")"
+		case token.LOR:
+			return "(.or " + condExpr(c, x.X) + " " + condExpr(c, x.Y) + ")"
+		case token.NEQ, token.EQL:
+			if (isRel(x.X) && isRole(x.Y, "dest")) || (isRel(x.Y) && isRole(x.X, "dest")) {
+				if x.Op == token.NEQ {
+					return ".relNeDest"
+				}
+				return "(.not .relNeDest)"
+			}
+		}
+	case *ast.CallExpr:
+		if ia := callTo(x, "filepath", "IsAbs"); ia != nil && len(ia.Args) == 1 {
+			if isRole(ia.Args[0], "dest") {
+				return ".absDest"
+			}
+			if isRole(ia.Args[0], "path") {
+				return ".absPath"
+			}
+		}
+	case *ast.Ident:
+		if x.Name == "true" {
+			return ".tt"
+		}
+		if x.Name == "false" {
+			return "(.not .tt)"
+		}
+	}
+	xlib.Unreadable("hash: managed-symlink condition has an unmodelled part: %s", f.Src(e))
+	return ""
 }
 
 func leanItems(xs []string) string { return "[" + strings.Join(xs, ", ") + "]" }
@@ -262,6 +328,7 @@ func main() {
 	}
 	var linkIn, linkOut []string
 	linkCond := ""
+	var linkCondAST ast.Expr
 	common := c.linear(chain.Body.List, func(is *ast.IfStmt, before []string) bool {
 		if linkCond != "" {
 			return false
@@ -274,6 +341,7 @@ func main() {
 			}
 		}
 		linkCond = canon(is.Cond, c.roles)
+		linkCondAST = is.Cond
 		linkIn = c.linear(is.Body.List, nil)
 		if eb, ok := is.Else.(*ast.BlockStmt); ok {
 			linkOut = c.linear(eb.List, nil)
@@ -288,10 +356,9 @@ func main() {
 	// writes before the inner if are common to both; writes after it would be too (none today)
 	linkIn = append(append([]string{}, common...), linkIn...)
 	linkOut = append(append([]string{}, common...), linkOut...)
-	knownCond := "(rel != dest || !filepath.IsAbs(dest)) && !filepath.IsAbs(path)"
-	if linkCond != knownCond {
-		xlib.Unreadable("hash: symlink condition %q is not the modelled one", linkCond)
-	}
+	// the condition itself becomes a fact: a boolean expression over the three tests the model knows
+	// (a changed condition is a fact difference the model follows, not an unreadable source)
+	linkCondE := condExpr(c, linkCondAST)
 
 	// ---- directory branch: err = WalkMode(path, func(p, mode) error {...})
 	var lit *ast.FuncLit
@@ -384,6 +451,7 @@ func main() {
 	}
 
 	out.Def("schema", "Schema", "{\n    marker := "+xlib.LeanNatList(marker)+
+		",\n    linkCond := "+linkCondE+
 		",\n    topFile := "+leanItems(topFile)+
 		",\n    topLinkIn := "+leanItems(linkIn)+
 		",\n    topLinkOut := "+leanItems(linkOut)+
